@@ -249,21 +249,21 @@ Proof.
   unfold spec_contrib. rewrite Ha.
   destruct (lookup valsS (sf_name f)) as [|b|a|l] eqn:Ev; [congruence| | |].
   - (* flag *)
-    destruct (sf_ty f); try discriminate Hv. apply andb_true_iff in Hv as [Hph Hd].
+    destruct (optional_type (sf_ty f)); try discriminate Hv. apply andb_true_iff in Hv as [Hph Hd].
     apply negb_true_iff in Hph, Hd. subst dots. rewrite app_nil_r in *.
     destruct (has_brace_words (sf_name f) ws Hws) as [A _]. rewrite A, Hph, Hl.
     destruct b; reflexivity.
   - (* scalar *)
     assert (Hat : atom_ok ws a = true /\ inert ws valsS (render_atom a) = true)
-      by (destruct (sf_ty f); try discriminate Hv; now apply andb_true_iff in Hv).
+      by (destruct (optional_type (sf_ty f)); try discriminate Hv; now apply andb_true_iff in Hv).
     destruct Hat as [H1 H2].
     assert (E : format_arg (to_field f) (render_words (sf_name f) ws ++ (if dots then ellipsis else [])) valsM
                 = Good (occurrence ws valsS (render_atom a)))
       by (apply (format_atom f ws dots FH); [now rewrite Hl|exact H1|exact H2]).
-    destruct (sf_ty f); try discriminate Hv;
+    destruct (optional_type (sf_ty f)); try discriminate Hv;
       destruct (has_char lbrace (render_words (sf_name f) ws ++ (if dots then ellipsis else []))); rewrite E; reflexivity.
   - (* list *)
-    destruct (sf_ty f) eqn:Et; try discriminate Hv.
+    destruct (optional_type (sf_ty f)) eqn:Et; try discriminate Hv.
     + (* TList *)
       apply andb_true_iff in Hv as [Hat Hv].
       assert (Hgoal : format_arg (to_field f) (render_words (sf_name f) ws ++ (if dots then ellipsis else [])) valsM
